@@ -157,6 +157,40 @@ def reset_set(ctx):
     return R
 
 
+def reset_roots_unconditional(ctx, rid="R12.7"):
+    """R12.7: what a reset root stores, it stores on every path and from its arguments / constants -- a store that is skipped
+    on some path (`if scripting is not None: self.scripting = scripting`) or whose value reads the attribute's previous content
+    (`self.x = x or self.x`) lets an option or a result of an earlier call reach this one."""
+    r = ctx.r
+    r.rule(rid, "the reset roots store each per-parse attribute on every path, from arguments and constants only", floor=15)
+    n = 0
+    for rel, q in ((PARSER_REL, "HTMLParser._parse"), (PARSER_REL, "HTMLParser.reset"), ("treebuilders/base.py", "TreeBuilder.reset")):
+        f = ctx.repo.func(rel, q)
+        must, _ = must_stores(f)
+        stores = {}
+        for st in walk_no_nested(f.node):
+            if isinstance(st, (ast.Assign, ast.AugAssign)):
+                for t in (st.targets if isinstance(st, ast.Assign) else [st.target]):
+                    ch = attr_chain(t)
+                    if ch and len(ch) == 2 and ch[0] == "self":
+                        stores.setdefault(ch[1], []).append(st)
+        for attr, sts in sorted(stores.items()):
+            n += 1
+            where = "%s:%d" % (rel, sts[0].lineno)
+            r.check(rid, attr in must, "always-stored::%s::%s" % (q, attr), where,
+                    "%s stores self.%s on some paths only: on the others the value left by an earlier parse with this object stays in "
+                    "force (an option of one call becomes sticky, state of an aborted parse leaks)" % (q, attr), {"function": q, "attribute": attr},
+                    detail={"function": q, "attribute": attr})
+            dep = [st for st in sts if isinstance(st, ast.AugAssign) or any(
+                isinstance(x, ast.Attribute) and x.attr == attr and isinstance(x.ctx, ast.Load) and attr_chain(x) == ["self", attr]
+                for x in ast.walk(st.value))]
+            r.check(rid, not dep, "fresh-value::%s::%s" % (q, attr), where,
+                    "%s computes the new self.%s from its previous content (%s): the previous parse's value reaches this one" % (
+                        q, attr, norm(dep[0])[:80] if dep else ""), {"function": q, "attribute": attr})
+    if n < 10:
+        raise AnalysisError("R12.7 found only %d stores in the reset roots" % n)
+
+
 def run(ctx):
     r = ctx.r
     repo = ctx.repo
@@ -234,6 +268,7 @@ def run(ctx):
               "%s is written during a parse by %s but is not re-initialised on every path of _parse/reset" % (key, names[:4]),
               {"writers": names})
 
+    reset_roots_unconditional(ctx)
     module_state(ctx)
     per_call_state(ctx)
     class_level_containers(ctx)
@@ -805,6 +840,8 @@ def mutants():
     from ..selftest import TextMutant as T
     return [
         T("module-cache-placeholder", "_utils.py", "            moduleCache[name][args][kwargs_tuple] = mod\n", "            moduleCache[name][args][kwargs_tuple] = {}\n            moduleCache[name][args][kwargs_tuple] = mod\n", "R12.6"),
+        T("scripting-sticky", "html5parser.py", "        self.scripting = scripting\n", "        if scripting:\n            self.scripting = scripting\n", "R12.7"),
+        T("errors-accumulate", "html5parser.py", "        self.firstStartTag = False\n        self.errors = []\n", "        self.firstStartTag = False\n        self.errors = self.errors[:0] if hasattr(self, \"errors\") else []\n", "R12.7"),
         T("module-cache-literal-guard", "_utils.py", "            if name not in moduleCache:", "            if \"name\" not in moduleCache:", "R12.6"),
         T("dropnewline-unchecked", "html5parser.py", "            self.tree.openElements[-1].name in (\"pre\", \"listing\", \"textarea\") and\n", "", "R12.1"),
         T("tokenqueue-class-level", "_tokenizer.py", "    def __init__(self, stream, parser=None, **kwargs):\n", "    tokenQueue = deque([])\n\n    def __init__(self, stream, parser=None, **kwargs):\n", "R12.4"),
